@@ -12,9 +12,13 @@ PErrorIO p_error_get_last_io (void) { return P_ERROR_IO_FAILED; }
 #include "plist.c"
 #undef p_list_foreach
 void p_list_foreach (PList *list, PFunc func, ppointer user_data) { (void) user_data; for (PList *c = list; c != NULL; c = c->next) ((void (*) (ppointer)) func) (c->data); }
-/* TRUSTED: atoi (call-log stub: C's decimal conversion, result not interpreted) -- the integer and boolean getters are required to hand exactly the stored text to atoi, which IS the documented conversion */
+/* TRUSTED: atoi (call-log stub: C's decimal conversion, result not interpreted except that text without a leading sign or digit gives 0) -- the integer and boolean getters are required to hand exactly the stored text to atoi, which IS the documented conversion */
 unsigned g_atoi_calls; char g_atoi_arg[8]; int g_atoi_result;
-int atoi (const char *s) { g_atoi_calls++; for (unsigned i = 0; i < 7; i++) { g_atoi_arg[i] = s[i]; if (s[i] == 0) break; } g_atoi_arg[7] = 0; g_atoi_result = nondet_int (); return g_atoi_result; }
+int atoi (const char *s) { g_atoi_calls++; for (unsigned i = 0; i < 7; i++) { g_atoi_arg[i] = s[i]; if (s[i] == 0) break; } g_atoi_arg[7] = 0; g_atoi_result = nondet_int ();
+	/* the one fact of C's atoi that the boolean words depend on: text that does not start (after blanks) with a sign or a digit converts to 0 */
+	unsigned j = 0; while (j < 6 && (s[j] == ' ' || (s[j] >= 9 && s[j] <= 13))) j++;
+	if (!(s[j] == '+' || s[j] == '-' || (s[j] >= '0' && s[j] <= '9'))) g_atoi_result = 0;
+	return g_atoi_result; }
 #include "pstring.c"
 #include "pinifile.c"
 #define M INI_LINE_MAX
@@ -163,6 +167,21 @@ void h_getters_words (void)
 		CANARY ("list");
 	}
 	OBL (p_ini_file_parameter_boolean (f, "s", "zz", TRUE) == TRUE && p_ini_file_parameter_int (f, "x", "k", 42) == 42 && p_ini_file_parameter_list (f, "s", "zz") == NULL, "missing key or section: the default");
+}
+
+/* the boolean getter alone on a fixed object, one unit per documented word (the combined words unit above costs an hour under load) */
+void h_getter_boolean_word (void)
+{
+	g_alloc_may_fail = 0;
+	PIniFile *f = malloc (sizeof (PIniFile)); PIniSection *sec = malloc (sizeof (PIniSection)); PIniParameter *p1 = malloc (sizeof (PIniParameter));
+	PList *ls = malloc (sizeof (PList)), *k1 = malloc (sizeof (PList));
+	__CPROVER_assume (f && sec && p1 && ls && k1);
+	f->path = NULL; f->is_parsed = TRUE; f->sections = ls; ls->data = sec; ls->next = NULL; sec->name = "s"; sec->keys = k1; k1->data = p1; k1->next = NULL; p1->name = "k";
+	int t = TEMPLATE;
+	p1->value = t == 0 ? "true" : t == 1 ? "TRUE" : t == 2 ? "false" : "FALSE";
+	pboolean r = p_ini_file_parameter_boolean (f, "s", "k", t >= 2 ? TRUE : FALSE);     /* the default is the opposite of the stored word */
+	OBL ((r != FALSE) == (t < 2), "boolean getter: the words true / TRUE / false / FALSE, whatever the default");
+	CANARY ("end");
 }
 
 /* ---- C18/C20: the allocating getters with every allocation allowed to fail, on a fixed parsed object
